@@ -102,10 +102,10 @@ func init() {
 		DesignRef:      "DESIGN.md §5 C10/C11",
 		Level:          "Decides only the dispatch layer: bytes written under an encoding are reopened as the chunk type that wrote them (Get/FromData/NewEmptyChunk/Put agree with each type's Encoding()), every encoding is accepted by IsValidEncoding and named, and a value type maps to an existing encoding; and that an appender re-opened on existing bytes takes every piece of its codec state from the reader field that plays the same role (XOR base, last timestamp and delta, leading/trailing window, start-timestamp state). The bit-level round trip and Seek are value-level and not decided.",
 		Note:           "Trusted: go/packages, go/types.",
-		Covers:         "tsdb/chunkenc: pool.Get, pool.Put, FromData, NewEmptyChunk, IsValidEncoding, Encoding.String, ValueType.ChunkEncoding, (*T).Encoding() of the six chunk types.",
-		NotCover:       "bit-exact round trip of timestamps, start timestamps and values; Seek; chunk capacity.",
+		Covers:         "tsdb/chunkenc: pool.Get, pool.Put, FromData, NewEmptyChunk, IsValidEncoding, Encoding.String, ValueType.ChunkEncoding, (*T).Encoding() of the six chunk types; XORChunk.Appender, XOR2Chunk.Appender (state and bit position resumed from the reader); xorIterator.Next, xor2Iterator.Next (every sample handed out was decoded on the way).",
+		NotCover:       "the bit widths and value arithmetic of the encodings (bit-exact round trip as such); Seek; chunk capacity.",
 		Run:            runC10,
-		MinObligations: 14,
+		MinObligations: 34,
 	})
 	register(&Property{
 		ID:        "C11",
@@ -115,10 +115,10 @@ func init() {
 		Level: "Decides the dispatch layer (as C10) and that the near-copies implementing the same step stay in step: expandIntSpansAndBuckets / expandFloatSpansAndBuckets (bucket-by-bucket reset detection), the appendable decision of the plain and the start-timestamp appenders (integer and float), the gauge variants, and the head's appendHistogram / appendFloatHistogram, " +
 			"each pair equal after renaming except for the declared lines (delta vs. absolute bucket encoding, which last-value field is kept). A re-check dropped or an update moved in one sibling only is reported. The four histogram Appender() functions resume every codec-state field of the appender (and of the start-timestamp encoder) from the iterator field of the same name.",
 		Note:           "Trusted: go/packages, go/types; engine checker/eng/siblings.go; difference tables in checker/c10.go.",
-		Covers:         "dispatch tables as C10; expand{Int,Float}SpansAndBuckets; {Histogram,FloatHistogram}{,ST}Appender.appendable; appendableGauge; memSeries.appendHistogram/appendFloatHistogram.",
-		NotCover:       "that the decision itself is right (value-level): bucket arithmetic, recoding, schema changes; reading back through iterators.",
+		Covers:         "dispatch tables as C10; expand{Int,Float}SpansAndBuckets; {Histogram,FloatHistogram}{,ST}Appender.appendable; appendableGauge; memSeries.appendHistogram/appendFloatHistogram; the four histogram Appender() functions (state and bit position); every running-sum decoder of tsdb/chunkenc and model/histogram (reset between bucket arrays).",
+		NotCover:       "that the decision itself is right (value-level): bucket arithmetic, recoding, schema changes; the iterators beyond the running-sum rule.",
 		Run:            runC11,
-		MinObligations: 18,
+		MinObligations: 60,
 	})
 }
 
@@ -128,8 +128,40 @@ var histRenames = [][2]string{{"FloatHistogram", "Histogram"}, {"Float", "Int"},
 var sibRenames = [][2]string{{"FloatHistograms", "Histograms"}, {"floatHistograms", "histograms"}, {"floatHistogramSeries", "histogramSeries"}, {"FloatHistogram", "Histogram"},
 	{"floatHistogram", "histogram"}, {`\.FH\b`, ".H"}, {`\bFH:`, "H:"}, {"float native", "native"}, {"customBucketsHistograms", "customBucketHistograms"}, {"Float", "Int"}, {"float64", "int64"}, {`\bfh\b`, "h"}}
 
+// resumePosition: an Appender() that rebuilds the writer's state by iterating the chunk's existing bytes also
+// has to restore where writing continues: bstream.count (free bits in the last byte) is not part of the bytes, a
+// chunk made by FromData has count 0.  The reader knows it: after the last sample its remaining valid bits are
+// exactly the unused bits of the last byte.
+func resumePosition(c *eng.Ctx, rule, fnRef string) {
+	p := c.P
+	f := c.Fn(fnRef)
+	next := eng.CallNamed("Next")
+	store := p.StoreVal("tsdb/chunkenc:bstream.count", "the reader's remaining valid bits", func(g *eng.Graph, e ast.Expr) bool {
+		se, ok := ast.Unparen(e).(*ast.SelectorExpr)
+		if !ok {
+			return false
+		}
+		v, _ := g.Info.Uses[se.Sel].(*types.Var)
+		return v != nil && v == p.Field("tsdb/chunkenc:bstreamReader.valid")
+	})
+	if !f.Has(rule, next, 1) {
+		return
+	}
+	f.Has(rule, store, 1)
+	f.Dom(rule, next, store)    // the position is taken after the bytes were read to the end
+	f.NoPath(rule, store, next) // and not overwritten by reading on
+}
+
 func runC10(c *eng.Ctx) {
 	encodingTable(c, "R1", true)
+	resumePosition(c, "R3", "tsdb/chunkenc:XORChunk.Appender")
+	resumePosition(c, "R3", "tsdb/chunkenc:XOR2Chunk.Appender")
+	// ---- R4 every sample handed out was decoded by this call ----
+	isFloat := func(s string) bool { return s == "ValFloat" }
+	// classic XOR: "value unchanged" means unchanged against it.val itself, so a path that leaves val alone is right;
+	// XOR2 XORs against a separate baseline (stale markers do not move it), so every sample has to define val.
+	decodeComplete(c, "R4", "tsdb/chunkenc:xorIterator", map[string][]string{"the timestamp": {"t"}, "the sample count": {"numRead"}}, isFloat)
+	decodeComplete(c, "R4", "tsdb/chunkenc:xor2Iterator", map[string][]string{"the timestamp": {"t"}, "the value": {"val"}, "the sample count": {"numRead"}}, isFloat)
 	// ---- R2 resuming an appender on existing bytes: writer state := reader state, role by role ----
 	K := "tsdb/chunkenc:"
 	c.ResumeState("R2", K+"XORChunk.Appender", K+"xorAppender", K+"xorIterator", map[string]string{
@@ -173,6 +205,35 @@ func runC11(c *eng.Ctx) {
 		c.ResumeState("R3", K+"FloatHistogramChunk.Appender", K+"FloatHistogramAppender", K+"floatHistogramIterator", nil, nil)
 		c.ResumeState("R3", K+"FloatHistogramSTChunk.Appender", K+"FloatHistogramAppender", K+"floatHistogramSTIterator", nil, nil)
 		c.ResumeState("R3", K+"FloatHistogramSTChunk.Appender", K+"stEncoder", K+"floatHistogramSTIterator", nil, nil)
+		for _, t := range []string{"HistogramChunk", "HistogramSTChunk", "FloatHistogramChunk", "FloatHistogramSTChunk"} {
+			resumePosition(c, "R3", K+t+".Appender")
+		}
+	}
+	// ---- R4 delta decoding: a running sum is not carried from one bucket array into the next ----
+	{
+		n := 0
+		for _, fs := range c.P.AllFuncs() {
+			rel := strings.TrimPrefix(fs.Pkg.PkgPath, eng.ModPath+"/")
+			if fs.Decl.Body == nil || rel != "tsdb/chunkenc" && rel != "model/histogram" {
+				continue
+			}
+			seen := map[string]int{}
+			for _, ps := range eng.PrefixSums(fs.Pkg.TypesInfo, fs.Decl.Body) {
+				n++
+				ok := true
+				for _, r := range ps.ResetBefore {
+					ok = ok && r
+				}
+				seen[ps.Var.Name()]++
+				name := ps.Var.Name()
+				if seen[name] > 1 {
+					name = fmt.Sprintf("%s#%d", name, seen[name])
+				}
+				c.Check("R4", eng.FuncName(fs.Obj), fmt.Sprintf("the running sum %s, stored element by element, restarts before each further array it decodes (%d loop(s))", name, len(ps.Loops)), ok, c.P.Pos(ps.Var.Pos()),
+					"the accumulator is advanced in two loops without being reset in between: the second array starts from the last total of the first")
+			}
+		}
+		c.Check("R4", "tsdb/chunkenc, model/histogram", "running-sum decoders found (≥ 12)", n >= 12, "", fmt.Sprint(n))
 	}
 	// ---- R2 siblings ----
 	c.SiblingsEqual("R2", "tsdb/chunkenc:expandIntSpansAndBuckets", "tsdb/chunkenc:expandFloatSpansAndBuckets", histRenames, []eng.SiblingDiff{
@@ -215,5 +276,64 @@ func runC11(c *eng.Ctx) {
 			as, ok := l.Node.(*ast.AssignStmt)
 			return ok && eng.ExprString(as.Rhs[0]) == "nil"
 		})
+	}
+}
+
+// decodeComplete (C10.R4 / C11.R4): a sample-decoding Next() hands out a sample (returns a value type other than
+// ValNone) only after this call has produced each of the iterator's output fields on the way: stored it directly, or
+// called a method of the iterator that stores it (found by reading the methods, transitively).  outputs maps a
+// description to the iterator fields that make it up; any of them counts.
+func decodeComplete(c *eng.Ctx, rule, iterRef string, outputs map[string][]string, isSampleReturn func(string) bool) {
+	p := c.P
+	next := c.Fn(iterRef + ".Next")
+	methods := c.MethodsOf(iterRef)
+	for desc, fields := range outputs {
+		// methods that (transitively) store one of the fields
+		producers := map[string]bool{}
+		for changed := true; changed; {
+			changed = false
+			for _, m := range methods {
+				name := m.Decl.Name.Name
+				if producers[name] || name == "Next" || name == "Reset" || name == "Seek" {
+					continue
+				}
+				hit := false
+				for _, fld := range fields {
+					if len(m.Find(p.Store(iterRef+"."+fld))) > 0 {
+						hit = true
+					}
+				}
+				ast.Inspect(m.Body, func(n ast.Node) bool {
+					if call, ok := n.(*ast.CallExpr); ok {
+						if se, ok := call.Fun.(*ast.SelectorExpr); ok && producers[se.Sel.Name] {
+							if callee := m.Callee(call); callee != nil && strings.HasSuffix(eng.FuncName(callee), eng.Short(iterRef)+"."+se.Sel.Name) {
+								hit = true
+							}
+						}
+					}
+					return true
+				})
+				if hit {
+					producers[name] = true
+					changed = true
+				}
+			}
+		}
+		var ms []eng.Matcher
+		for _, fld := range fields {
+			ms = append(ms, p.Store(iterRef+"."+fld))
+		}
+		var pn []string
+		for n := range producers {
+			pn = append(pn, n)
+			ms = append(ms, p.Call(iterRef+"."+n))
+		}
+		sort.Strings(pn)
+		via := eng.Or(ms...)
+		via.Desc = "a definition of " + desc + " (store to " + strings.Join(fields, "/") + " or call of " + strings.Join(pn, "/") + ")"
+		ret := eng.Return("a sample", func(g *eng.Graph, rs *ast.ReturnStmt) bool {
+			return len(rs.Results) == 1 && isSampleReturn(eng.ExprString(rs.Results[0]))
+		})
+		next.MustPassBefore(rule, ret, via)
 	}
 }
